@@ -712,8 +712,7 @@ def count_session(res, sess) -> None:
 def check_sessions(res, sessions: list[dict[str, Any]]) -> None:
     prepared = []
     lines = []
-    for sess in sessions:
-        obs = run_session(sess)
+    for sess, obs in zip(sessions, B.pool_map(run_session, sessions)):
         prepared.append((sess, obs))
         lines.append(session_line(sess, obs))
     answers = common.run_lean_driver(B.PID, lines) if lines else []
